@@ -265,7 +265,7 @@ class _Hang(Exception):
   pass
 
 
-def _bounded(fn, seconds=8.0):
+def _bounded(fn, seconds=30.0):
   """Runs fn() in a daemon thread; a call that does not come back (a client polling an operation that never finishes) is
   reported as _Hang instead of stalling the checker until its time budget runs out."""
   import threading
